@@ -379,9 +379,11 @@ def run(ctx):
         I = np.zeros(nn); v = np.zeros(nn)
         case = {"op": "cuba", "n": nn, "dt": dt, "seed": "derived"}
         ctx.case(case); ctx.count("cuba_runs")
+        kept = []
         for step in range(rng.randrange(1, 30)):
             x = (g.random(nn) < 0.4).astype(float) * g.uniform(0.5, 5)
             z, vo, Io = m.forward(x)
+            kept.append((step, z, vo, Io, np.array(z, copy=True), np.array(vo, copy=True), np.array(Io, copy=True)))
             I_new = I + dt * (-I + w_given * x) / node.tau_syn
             v_new = v + dt * ((node.v_leak - v) + node.r * I) / node.tau_mem
             z_want = v_new > node.v_threshold
@@ -393,3 +395,12 @@ def run(ctx):
                             {"site": "CubaLIFImplementation.forward"}, observed={"step": step})
                 break
             I, v = np.array(Io, dtype=float), np.array(vo, dtype=float)
+        else:
+            # a caller that collects the per-step results and looks at them afterwards sees the same values
+            for step, z, vo, Io, z0, v0, I0 in kept:
+                if not (np.array_equal(np.asarray(z), z0) and np.array_equal(np.asarray(vo), v0, equal_nan=True)
+                        and np.array_equal(np.asarray(Io), I0, equal_nan=True)):
+                    ctx.violate(case, "the values a CubaLIF reference step returned changed during later steps",
+                                {"site": "CubaLIFImplementation.forward", "what": "returned-state-aliased"},
+                                observed={"step": step, "of": len(kept)})
+                    break
